@@ -828,6 +828,12 @@ def scripts(draw, prof):
     if style != "paint":
       painted = set()
     caps.append(cap)
+  if prof["open_end"] and prof["pop_leftover"] and len(caps) >= 3 and all(c["style"] == "pop" for c in caps[-3:]) and draw(st.integers(0, 1)):
+    # three pop-on captions that replace one another directly (no EDM, no ENM): the third is built in the memory that showed
+    # the first one, and the file ends while it is displayed
+    for c in caps[-3:]:
+      c["enm"], c["edm"], c["edm_pre"] = False, None, False
+    caps[-1]["gap"] = 2 * (caps[-1].get("gap", 0) // 2)
   normalise(caps, prof, draw)
   df = prof["df"] and draw(st.booleans())
   start = draw(st.one_of(st.integers(0, 4000), st.integers(0, MAX_START),
